@@ -248,7 +248,7 @@ func Mutate(t *rapid.T, root *Node, typeNames []string) []string {
 
 		s := sl[rapid.IntRange(0, len(sl)-1).Draw(t, "slot")]
 		cur := s.parent.Members[s.index]
-		kind := rapid.SampledFrom([]string{"replace-kind", "replace-kind", "replace-kind", "delete", "duplicate-key", "unknown-type", "unknown-field", "null-element", "deep-nest", "swap-type", "edit-string", "edit-string"}).Draw(t, "mutation")
+		kind := rapid.SampledFrom([]string{"replace-kind", "replace-kind", "replace-kind", "delete", "duplicate-key", "unknown-type", "unknown-field", "null-element", "deep-nest", "swap-type", "edit-string", "edit-string", "link-object"}).Draw(t, "mutation")
 
 		switch kind {
 		case "replace-kind":
@@ -330,6 +330,20 @@ func Mutate(t *rapid.T, root *Node, typeNames []string) []string {
 			}
 
 			s.parent.Members[s.index] = &Node{Kind: "string", Str: v}
+		case "link-object":
+			// A links member whose links are written in their object form
+			// (href and meta), the meta being of any JSON kind.
+			if cur.Kind != "object" {
+				continue
+			}
+
+			link := &Node{Kind: "object", Keys: []string{"href", "meta"}, Members: []*Node{{Kind: "string", Str: "/x"}, OtherKind(t, "linkmeta")}}
+			if rapid.IntRange(0, 3).Draw(t, "linkhref") == 0 {
+				link.Members[0] = OtherKind(t, "linkhref-kind")
+			}
+
+			cur.Keys = append(cur.Keys, "links")
+			cur.Members = append(cur.Members, &Node{Kind: "object", Keys: []string{"self", "related"}, Members: []*Node{link, {Kind: "string", Str: "/y"}}})
 		case "deep-nest":
 			depth := rapid.SampledFrom([]int{3, 100, 5000, 10001}).Draw(t, "depth")
 			s.parent.Members[s.index] = &Node{Kind: "raw", Str: strings.Repeat("[", depth) + cur.Text() + strings.Repeat("]", depth)}
